@@ -110,6 +110,8 @@ class World:
       crashes      total crash events (each followed by at most one restart)
       max_msgs     states with more in-flight messages are not expanded
       max_log      submit only while the node's log is shorter
+      futures      False: the submit-future clause is not evaluated in this world (stale-resp5 only: there
+                   finding 3 would otherwise stop every path one move before finding 4 shows)
       symmetry     node-permutation symmetry reduction of the state hash
       prefix       label script applied by make_world (non-initial start)
     """
@@ -247,7 +249,8 @@ class World:
             self.ncmd += 1
             self.used["submits"] += 1
             fut = self.nodes[nm].submit(cmd)
-            self.futures.append([nm, cmd, fut, False])
+            if self.p.get("futures", True):  # a world may leave the future clause to the other worlds
+                self.futures.append([nm, cmd, fut, False])
         elif kind == "crash":
             nm = lab[1]
             self.nodes[nm]._crashed = True  # the flag CrashNode sets
@@ -503,6 +506,10 @@ WORLDS = {
     "elect": dict(timeouts=3, max_term=2, max_msgs=12),
     "elect-t3": dict(timeouts=4, max_term=3, max_msgs=8),
     "elect5": dict(n=5, timeouts=2, max_term=2, max_msgs=14),
+    # a granted vote is still in flight while elections go on: n0 is candidate of term 1, n1 has granted its
+    # vote (answer in flight), n2 never got the request
+    "late-vote": dict(prefix=[("timeout", "n0"), ("msg", "RequestVote", "n0", "n1"),
+                              ("dropmsg", "RequestVote", "n0", "n2")], timeouts=2, max_term=2, max_msgs=6),
     # replication under a stable leader n0 (term 1, everybody has acknowledged its first heartbeat)
     "repl": dict(prefix=ELECT_N0, submits=2, hbs=2, submit_to="any", max_msgs=6),
     "repl-drop": dict(prefix=ELECT_N0, submits=2, hbs=3, drops=2, max_msgs=4),
@@ -545,7 +552,7 @@ WORLDS = {
         ("keeponly", ("AppendEntriesResponse", "n1", "n0")),
         ("submit", "n0"), ("hb", "n0"),
         ("keeponly", ("AppendEntriesResponse", "n1", "n0"), ("AppendEntries", "n0", "n3"))],
-        timeouts=1, max_term=4, hbs=0, max_msgs=6),
+        timeouts=1, max_term=4, hbs=0, max_msgs=6, futures=False),
     # crash / restart of any node anywhere during replication and during a leader change
     "crash-repl": dict(prefix=ELECT_N0, submits=1, hbs=2, crashes=1, timeouts=1, max_term=2, max_msgs=5),
     "crash-change": dict(prefix=ELECT_N0 + [("submit", "n0")], timeouts=2, max_term=3, hbs=1, crashes=1, max_msgs=4),
@@ -864,6 +871,7 @@ QUICK_WORLDS = [
     ("fig8", "fig8", dict(max_msgs=4), 300_000),
     ("stale-resp5", "stale-resp5", dict(max_msgs=5), 300_000),
     ("behind", "behind", dict(hbs=0, max_msgs=4), 300_000),
+    ("late-vote", "late-vote", dict(max_msgs=5), 300_000),
     ("elect-t2", "elect", dict(timeouts=2, max_msgs=8), 300_000),
     ("elect-t3", "elect", dict(timeouts=3, max_msgs=4), 300_000),
     ("free", "free", dict(max_msgs=3), 300_000),
@@ -875,6 +883,7 @@ THOROUGH_WORLDS = [
     ("elect", "elect", None, 600_000),
     ("elect-4t3", "elect-t3", None, 600_000),
     ("elect5", "elect5", None, 600_000),
+    ("late-vote", "late-vote", dict(timeouts=3, max_msgs=8), 600_000),
     ("change-t2-hb1", "change", dict(timeouts=2, max_term=3, hbs=1, max_msgs=4), 600_000),
     ("change-t2", "change", dict(timeouts=2, max_term=3, hbs=0, max_msgs=6), 600_000),
     ("change-t1", "change", dict(timeouts=1, max_term=2, hbs=2), 600_000),
@@ -914,7 +923,7 @@ def main(tier, seed, only=None):
                            "exactly one leader, all other nodes followers of it in its term"])
     t0 = time.time()
     worlds = QUICK_WORLDS if tier == "quick" else THOROUGH_WORLDS
-    budget_s = int(__import__("os").environ.get("C11_MAX_SECONDS", 0)) or (300 if tier == "quick" else 800)  # safety net only; the bounds are the state constraints
+    budget_s = int(__import__("os").environ.get("C11_MAX_SECONDS", 0)) or (1200 if tier == "quick" else 3600)  # safety net only; the bounds are the state constraints
     jobs = []
     for dname, wname, ov, cap in worlds:
         if only and "bfs-" + dname not in only and dname not in only:
